@@ -64,27 +64,39 @@ def expected_devices(spa):
 
 
 def check_list(spa, lst, cls, devclass, expected, ordered=True):
+    """`lst` is a guarded list: entry i = (presence guard g_i, device).  The same device may sit in several entries (code that
+    appends 'if not already in the list' produces one entry per output that could wire it) -- what counts is which
+    devices are PRESENT together."""
     want = [e for e in expected if e[2] == devclass]
     got = members(lst)
-    got_keys = [m[1].key for m in got]
     want_keys = [e[0] for e in want]
-    ensures("each-device-at-most-once", len(set(got_keys)) == len(got_keys))
-    if ordered:
-        ensures("only-exposable-devices-in-table-order", got_keys == [k for k in want_keys if k in got_keys])
-    else:
-        ensures("only-exposable-devices", sorted(got_keys) == sorted([k for k in want_keys if k in got_keys]))
+    for (g, dev) in got:
+        ensures("only-exposable-devices", dev.key in want_keys)
+    rank = {}
+    for k in want_keys:
+        rank[k] = len(rank)
+    for i in range(len(got)):
+        for j in range(i + 1, len(got)):
+            (gi, di) = got[i]
+            (gj, dj) = got[j]
+            if di.key == dj.key:
+                ensures("each-device-at-most-once", not both(gi, gj))
+            elif ordered and di.key in rank and dj.key in rank and rank[di.key] > rank[dj.key]:
+                ensures("present-devices-are-in-table-order", not both(gi, gj))
     for (d, ud, c) in want:
-        if d not in got_keys:
+        entries = [m for m in got if m[1].key == d]
+        if len(entries) == 0:
             ensures("omitted-only-when-never-wired", not wired(spa, d))
             continue
-        (g, dev) = got[got_keys.index(d)]
-        ensures("exposed-exactly-when-wired", g == wired(spa, d))
-        ensures("right-class", type(dev) is cls)
-        ensures("named-and-keyed-from-the-device-table",
-                both(dev.name == SPEC_DEVICES[d][0], dev.key == d, dev.device_class == devclass, dev._keypad_button == SPEC_DEVICES[d][1],
-                     dev._state_sensor.accessor is spa.accessors[SPEC_DEVICES[d][2]]))
-        if cls is GeckoPump:
-            ensures("demand-item-and-mode-list", both(dev._user_demand["demand"] == spa.accessors[ud].tag, dev.modes == spa.accessors[ud].items))
+        present = either(*([m[0] for m in entries] + [False]))
+        ensures("exposed-exactly-when-wired", present == wired(spa, d))
+        for (g, dev) in entries:
+            ensures("right-class", type(dev) is cls)
+            ensures("named-and-keyed-from-the-device-table",
+                    both(dev.name == SPEC_DEVICES[d][0], dev.key == d, dev.device_class == devclass, dev._keypad_button == SPEC_DEVICES[d][1],
+                         dev._state_sensor.accessor is spa.accessors[SPEC_DEVICES[d][2]]))
+            if cls is GeckoPump:
+                ensures("demand-item-and-mode-list", both(dev._user_demand["demand"] == spa.accessors[ud].tag, dev.modes == spa.accessors[ud].items))
 
 
 @harness(prop="C12", cases="c11_representatives", cases_quick="c11_quick",
@@ -101,16 +113,24 @@ def inventory_equals_output_wiring(combo, block: bytes):
                         and GeckoConstants.KEY_ECON_ACTIVE in acc)
     f = GeckoAsyncFacade(spa, TaskMan())
     exp = expected_devices(spa)
+    # the device universe is the statement's (pumps, waterfall, blower, lights), not whatever the table lists: a device the
+    # table's device list leaves out (or misspells) although it has a demand item must never be wired
+    for d in SPEC_DEVICES:
+        if d not in spa.struct.all_devices and demand_of(spa, d) is not None:
+            ensures("no-wirable-device-is-missing-from-the-table's-device-list:" + d, not wired(spa, d))
     check_list(spa, f._pumps, GeckoPump, GeckoConstants.DEVICE_CLASS_PUMP, exp)
     check_list(spa, f._blowers, GeckoBlower, GeckoConstants.DEVICE_CLASS_BLOWER, exp)
     check_list(spa, f._lights, GeckoLight, GeckoConstants.DEVICE_CLASS_LIGHT, exp)
     ensures("sensors-whose-items-exist", [s.name for s in f.sensors] == [s[0] for s in GeckoConstants.SENSORS if s[1] in acc])
     ensures("binary-sensors-whose-items-exist",
             [s.name for s in f.binary_sensors] == [s[0] for s in GeckoConstants.BINARY_SENSORS if s[1] in acc])
-    keys = [m[1].key for m in members(f.all_automation_devices)]
-    uids = [m[1].unique_id for m in members(f.all_automation_devices)]
-    ensures("automation-keys-are-distinct", len(set(keys)) == len(keys))
-    ensures("unique-ids-are-distinct", len(set(uids)) == len(uids))
+    alld = members(f.all_automation_devices)
+    for i in range(len(alld)):
+        for j in range(i + 1, len(alld)):
+            if alld[i][1].key == alld[j][1].key:
+                ensures("automation-keys-are-distinct", not both(alld[i][0], alld[j][0]))
+            if alld[i][1].unique_id == alld[j][1].unique_id:
+                ensures("unique-ids-are-distinct", not both(alld[i][0], alld[j][0]))
     for (g, dev) in members(f.all_automation_devices):
         if not is_symbolic(g):
             ensures("lookup-by-key-returns-that-device", f.get_device(dev.key) is dev)
